@@ -30,6 +30,7 @@ class SchedSession(Session):
         self.actors = []
         self.ram = None
         self.last_mut = {}     # task id -> seq of its last mutating storage event
+        self.first_mut = {}    # task id -> seq of its first mutating storage event since it was last cleared
         self.lock_events = []  # (seq, time, task name, kind)
         self.lock_holds = []   # [task name, acq seq, acq time, rel seq, rel time]
         self.k.event_hooks.append(self._on_event)
@@ -41,6 +42,7 @@ class SchedSession(Session):
     def _on_event(self, k, task, kind, detail):
         if kind in self.MUT and "WRITELOCK" not in detail:
             self.last_mut[task.id] = k.seq
+            self.first_mut.setdefault(task.id, k.seq)
         elif kind in ("flock", "funlock") and "WRITELOCK" in detail:
             self.lock_events.append((k.seq, k.time(), task.name, kind))
         if kind == "rename" or kind == "ram.rename_file":
